@@ -4,10 +4,13 @@ CONSTANTS
   OptKnown = TRUE
   InWriter = "filter"
   OutWriter = "all"
-  CloneKeeps = {"minmax", "qdim", "peraxis"}
+  CloneKeeps = {"min", "max", "qdim", "peraxis"}
+  TableKept = "always"
+  CloneQuant = "private"
   MaxIn = 4
 INVARIANT OptionRoundTrip
 INVARIANT OperandPositions
 INVARIANT TensorRoundTrip
+INVARIANT WeightRoundTrip
 INVARIANT OutputsDeclared
 CHECK_DEADLOCK FALSE
